@@ -152,6 +152,33 @@ Definition canonical (v : value) : bool :=
   | _ => true
   end.
 
+(* class, constructor and scale factor (value_scaled = f_sval * scale) of the float type with tag t *)
+Definition cls (t : Z) : fconst := if t =? 8 then Double_consts else Single_consts.
+Definition mkf (t : Z) (b : list Z) : value := if t =? 8 then VDbl b else VSng b.
+Definition scale_of (t : Z) : Z := if t =? 8 then 1 else 2 ^ 32.
+
+(* `err_ok strict x bound`:  x < bound  (strict)  or  x <= bound *)
+Definition err_le (strict : bool) (x bound : Z) : Prop := if strict then x < bound else x <= bound.
+
+(* THE STATEMENT OF C04 for one operation on one operand pair.
+   The exact result is the rational N / D on the scale of value_scaled (value * 2^184); t is the result
+   type; rh / rs are the results with the error handler raising (hard) / printing and continuing (soft).
+     - Overflow (BASIC error 6) is raised only if |exact| > MAX, and the soft result is then the largest
+       number of the type with the sign of the exact result;
+     - it is always raised if |exact| >= 2^127 (between MAX and 2^127 the result may round to MAX itself);
+     - otherwise both modes return the same float r of type t; if r is a zero then |exact| < MIN = 2^-128
+       (in particular: a non-zero exact result is replaced by zero only below MIN);
+     - if r is not zero,  den * |r - exact|  <  /  <=  w * ulp(r)      (strict: < ; else <=). *)
+Definition val_post (t : Z) (strict : bool) (w den : Z) (N D : Z) (rh rs : res value) : Prop :=
+  (match rh return Prop with
+   | Err e => e = err_overflow /\ max_scaled t * D < Z.abs N /\
+              rs = Ok (mkf t (f_max (cls t) (N <? 0)))
+   | Ok r => rs = Ok r /\ v_tag r = t /\ value_ok r /\
+             (if is_zero_value r then Z.abs N < min_scaled * D
+              else err_le strict (den * Z.abs (value_scaled r * D - N)) (w * ulp_scaled r * D))
+   | _ => False
+   end) /\ (2 ^ 311 * D <= Z.abs N -> rh = Err err_overflow).
+
 (* ------------------------------------------------------------------------------------------------ *)
 (* harness entry points                                                                             *)
 
